@@ -124,4 +124,45 @@ META = {
         "trusted_base": ["ElementTree parsing of the request body"],
         "not_decided": ["percent-encoded variants of hrefs", "duplicates (unmappable duplicates are answered twice)", "ETag currency beyond C02"],
     },
+    "C18": {
+        "explanation": "Single-source, guarded-creation, reachability and table-totality rules for service discovery: (S1) the "
+                       "directories created for a principal derive from the same getters the advertised home-set / inbox properties "
+                       "read; (S2) every creation reachable from main / run_simple_server / the wsgi module tolerates 'already exists'; "
+                       "(S3) call-graph reachability - no start-up path reaches rmtree/unlink/destroy/delete (count 0, DELETE handler as "
+                       "positive control); (S4) get_resource's type table is total over VALID_STORE_TYPES and maps to classes with the "
+                       "matching resource type, defaults are typed correctly; (S5) well-known paths and redirects. The concrete hrefs "
+                       "for a given route prefix are runtime values and are not decided.",
+        "trusted_base": ["os.mkdir raises FileExistsError for an existing directory", "aiohttp router / HTTPFound"],
+        "not_decided": ["hrefs actually produced for a given prefix / principal path", "front-end equivalence"],
+    },
+    "C02": {
+        "explanation": "Who-may-call and def-use rules (modulo hash collisions): (E1) ETags are quoted only by create_strong_etag, whose "
+                       "argument is ObjectResource.etag, the etag component store.import_one returned, or store.get_ctag(); (E2) every "
+                       "ETag header and the getetag property take the value from get_etag() / the write's return value / render()'s "
+                       "etag slot, and the report generators have no other etag path; (E3) the git stores return the id of the blob "
+                       "built from the bytes they store and reference, the vdir store hashes every chunk of the file and nothing else; "
+                       "(E4) the body is fetched by that etag (content addressing).",
+        "trusted_base": ["git blob ids / md5 are collision free for the purposes of the property", "dulwich object_store[sha] returns that object"],
+        "not_decided": ["vdir re-reads the file on GET (read/ETag race)", "that nothing else changes the ETag beyond E3's dependence argument"],
+    },
+    "C07": {
+        "explanation": "Def-use, exception-flow and yield-shape rules for sync-collection: (T1) the token returned is the single value "
+                       "of resource.get_sync_token() taken before the enumeration and passed to iter_differences_since; (T2) an unknown "
+                       "token can only end in 412: object-store miss -> InvalidCTag -> sync.InvalidToken -> valid-sync-token -> 412, each "
+                       "iteration inside the translating try, the empty tree only for token None; (T3) iter_changes yields changed, new "
+                       "and removed members and the report renders 404 / propstat accordingly; (T4) token = store.get_ctag(). That the "
+                       "diff of two trees equals the set of changes between two history points follows from content addressing and is "
+                       "not separately decided.",
+        "trusted_base": ["dulwich object_store[sha] raises KeyError for an unknown id", "git tree ids are content addresses"],
+        "not_decided": ["reports with DAV:limit (excluded by the property)", "a token that names an existing non-tree object"],
+    },
+    "C08": {
+        "explanation": "Provenance of the collection tag: (G1) sync-token, both getctag properties and the collection ETag read "
+                       "store.get_ctag(); (G2) that value is the id of the tree of the current membership (tree of the object the "
+                       "store's ref points at / Index.commit of a freshly opened index) with no clock, counter or commit-id ingredient, "
+                       "so by content addressing equal contents give equal tags and different contents different tags; (G3) no read "
+                       "method of a git store reaches a ref/index/working-tree mutation (refused requests: C01/O1-O2).",
+        "trusted_base": ["git tree ids are content addresses (no collisions)", "Index.commit writes the tree of the index entries"],
+        "not_decided": ["vdir has no ctag (NotImplementedError) - outside the claim"],
+    },
 }
